@@ -4,6 +4,7 @@ import (
 	"encoding/json"
 	"fmt"
 	"math/rand"
+	"sort"
 	"strings"
 
 	"verif/harness/internal/engine"
@@ -90,7 +91,12 @@ func genValidOp(r *rand.Rand, mono *ast.Schema, p gen.OpProfile) *gen.Op {
 		if op == nil {
 			continue
 		}
-		if _, err := gqlparser.LoadQuery(mono, op.Query); err != nil {
+		doc, err := gqlparser.LoadQuery(mono, op.Query)
+		if err != nil {
+			continue
+		}
+		if hasTag(op.Tags, "dup-key-direct") && !fieldsCanMerge(doc) {
+			// gqlparser lets some same-key fields with different arguments through; such operations are invalid
 			continue
 		}
 		return op
@@ -451,4 +457,78 @@ func onlyHelperLeaves(v any) bool {
 		return true
 	}
 	return false
+}
+
+func hasTag(tags []string, t string) bool {
+	for _, x := range tags {
+		if x == t {
+			return true
+		}
+	}
+	return false
+}
+
+// fieldsCanMerge is a conservative version of the specification's "field selection merging" rule: within one
+// selection set (fragments flattened regardless of type condition) fields sharing a response key must have the same
+// name and arguments, recursively over their merged sub-selections.
+func fieldsCanMerge(doc *ast.QueryDocument) bool {
+	var flat func(set ast.SelectionSet, out *[]*ast.Field)
+	flat = func(set ast.SelectionSet, out *[]*ast.Field) {
+		for _, sel := range set {
+			switch x := sel.(type) {
+			case *ast.Field:
+				*out = append(*out, x)
+			case *ast.InlineFragment:
+				flat(x.SelectionSet, out)
+			case *ast.FragmentSpread:
+				if x.Definition != nil {
+					flat(x.Definition.SelectionSet, out)
+				}
+			}
+		}
+	}
+	sig := func(f *ast.Field) string {
+		var as []string
+		for _, a := range f.Arguments {
+			as = append(as, a.Name+":"+a.Value.String())
+		}
+		sort.Strings(as)
+		return f.Name + "(" + strings.Join(as, ",") + ")"
+	}
+	var check func(sets []ast.SelectionSet) bool
+	check = func(sets []ast.SelectionSet) bool {
+		var fs []*ast.Field
+		for _, s := range sets {
+			flat(s, &fs)
+		}
+		byKey := map[string][]*ast.Field{}
+		for _, f := range fs {
+			k := f.Alias
+			if k == "" {
+				k = f.Name
+			}
+			byKey[k] = append(byKey[k], f)
+		}
+		for _, g := range byKey {
+			var subs []ast.SelectionSet
+			for _, f := range g {
+				if sig(f) != sig(g[0]) {
+					return false
+				}
+				if len(f.SelectionSet) > 0 {
+					subs = append(subs, f.SelectionSet)
+				}
+			}
+			if len(subs) > 0 && !check(subs) {
+				return false
+			}
+		}
+		return true
+	}
+	for _, op := range doc.Operations {
+		if !check([]ast.SelectionSet{op.SelectionSet}) {
+			return false
+		}
+	}
+	return true
 }
